@@ -26,6 +26,8 @@ type BFSDef struct {
 	// 2..TailBurst operations is applied once and judged (successors are not expanded further).
 	TailBurst int
 	TailDepth int
+	// Optionally shorter bursts (exactly PairDepth's states get all bursts of two) from deeper states.
+	PairDepth int
 }
 
 func (d *BFSDef) tailMoves() []string {
@@ -267,9 +269,19 @@ func RunBFS(def *BFSDef, deadline time.Time) *BFSStats {
 	if def.TailBurst >= 2 && len(st.EngineErrs) == 0 {
 		tm := def.tailMoves()
 		var jobs []Job
+		var pairs []string
+		for _, a := range def.Alphabet {
+			for _, b := range def.Alphabet {
+				pairs = append(pairs, a+" ;; "+b)
+			}
+		}
 		for _, sa := range all {
+			tm := tm
 			if sa.depth > def.TailDepth {
-				continue
+				if sa.depth > def.PairDepth {
+					continue
+				}
+				tm = pairs
 			}
 			// split the burst list so that jobs stay small
 			for off := 0; off < len(tm); off += 64 {
